@@ -16,7 +16,7 @@ import numpy as np
 from .. import coqrun
 from ..core import Corr
 from ..coqrun import cz, clist, cq, cnat
-from ..translate import geo3np
+from ..translate import geo3np, geo3glue
 
 PID = "C18"
 ALLOWED_AXIOMS = {
@@ -27,8 +27,11 @@ TRUSTED = [
     "translator harness/translate/geo3np.py (Python ast of misc.py -> monadic Gallina over Common/Geo3Np.v; fail-closed)",
     "Common/Geo3Np.v: hand-written semantics of the numpy operations used (atleast_2d, +-*/ with broadcasting, einsum 'ij,ij->i', "
     "cross, clip, sqrt, arccos, arctan2, degrees, a[:, None]) over an exact field: binary64 rounding, inf and nan are not modelled",
-    "hand-written models in Model/Geometry.v of measure_coordinates' dispatch, distance_matrix and guess_connectivity's double loop, "
-    "tied by differential execution only",
+    "translator harness/translate/geo3glue.py (fail-closed): the bond test of guess_connectivity's loop body, the entry expression of "
+    "distance_matrix and the bounds test + len(m)->kernel chain of measure_coordinates are translated into Gen/GeoGlue.v and proved "
+    "equal to the hand models (C18_generated_glue_is_model); the loop skeletons (tail slices x+1:, index shift, append order, "
+    "default_connectivity post-processing, single/many wrapping, val[0]) are checked structurally against the source and otherwise "
+    "tied by differential execution",
     "libm/numpy arccos and arctan2 are trusted to approximate Coq's acos and the atan2 of Common/Geo3R.v (specification proved "
     "there: C18_atan2_spec); each run checks sin/cos residuals <= 1e-9 of what numpy returned",
     "the executable Q instance Common/Geo3Q.v (square roots truncated at 1e-16) is used only to run the models; comparison "
@@ -48,6 +51,7 @@ getcontext().prec = 60
 
 def translate(ctx):
     geo3np.generate(ctx.repo, os.path.join(coqrun.COQ, "Gen", "Dihedral.v"))
+    geo3glue.generate(ctx.repo, os.path.join(coqrun.COQ, "Gen", "GeoGlue.v"))
 
 
 # ------------------------------------------------------------------------------------------------
